@@ -249,8 +249,21 @@ func (e *FuncEnc) classifyChunk(v ssa.Value) jchunk {
 	if cv, ok := v.(*ssa.Convert); ok {
 		v = e.origin(cv.X)
 	}
+	var flat []jatom
+	e.flattenConcat(v, &flat)
+	// adjacent literals are one piece of text however the code spells them
+	// (`:` + `null`, a prefix kept in a local)
 	var atoms []jatom
-	e.flattenConcat(v, &atoms)
+	for _, a := range flat {
+		if a.isLit && a.lit == "" && len(flat) > 1 {
+			continue
+		}
+		if n := len(atoms); n > 0 && a.isLit && atoms[n-1].isLit {
+			atoms[n-1].lit += a.lit
+			continue
+		}
+		atoms = append(atoms, a)
+	}
 	lit := func(i int) (string, bool) {
 		if i < len(atoms) && atoms[i].isLit {
 			return atoms[i].lit, true
